@@ -218,4 +218,84 @@ theorem CInv.run {c : FcConn} (inv : CInv c) (es : List FcEv) : CInv (fcRun c es
     simp only [fcRun]
     exact ih (inv.step e)
 
+/-- successive turns of one stream; the connection window is charged with what was sent -/
+def turns : FcStream → Int → List Nat → FcStream × Int
+  | s, cw, [] => (s, cw)
+  | s, cw, b :: bs => turns (streamTurn cw b s).1 (cw - (streamTurn cw b s).2) bs
+
+theorem sendAmount_enough (swinS swinC : Int) (pending dlen : Nat)
+    (hs : (pending : Int) ≤ swinS) (hc : (pending : Int) ≤ swinC) (hd : 2048 ≤ dlen) :
+    sendAmount swinS swinC pending dlen = min pending dlen := by
+  unfold sendAmount
+  have h : ¬ (swinS < 0 ∨ swinC < 0) := by omega
+  simp only [h, if_false]
+  split
+  · omega
+  · split
+    · omega
+    · omega
+
+theorem turns_not_open : ∀ (bs : List Nat) (s : FcStream) (cw : Int), s.st ≠ .open →
+    turns s cw bs = (s, cw) := by
+  intro bs
+  induction bs with
+  | nil => intro s cw _; rfl
+  | cons b bs ih =>
+    intro s cw h
+    have : streamTurn cw b s = (s, 0) := by simp [streamTurn, h]
+    simp only [turns, this]
+    simpa using ih s cw h
+
+theorem perCallCap_ge (s : FcStream) : 2048 ≤ perCallCap s := by
+  unfold perCallCap; split <;> omega
+
+theorem streamTurn_enough (s : FcStream) (cw : Int) (b : Nat)
+    (hopen : s.st = .open) (hp : s.pending ≠ 0) (hb : 2048 ≤ b)
+    (hs : (s.pending : Int) ≤ s.swin) (hc : (s.pending : Int) ≤ cw) :
+    (streamTurn cw b s).2 = min s.pending (min (perCallCap s) b) ∧
+    (streamTurn cw b s).1.pending = s.pending - (streamTurn cw b s).2 ∧
+    (streamTurn cw b s).1.swin = s.swin - (streamTurn cw b s).2 ∧
+    (streamTurn cw b s).1.sent = s.sent + (streamTurn cw b s).2 ∧
+    (streamTurn cw b s).1.st = (if s.pending - (streamTurn cw b s).2 = 0 then .closed else .open) := by
+  have hcap := perCallCap_ge s
+  have hd : 2048 ≤ min (perCallCap s) b := by omega
+  have hb0 : b ≠ 0 := by omega
+  have hn := sendAmount_enough s.swin cw s.pending (min (perCallCap s) b) hs hc hd
+  unfold streamTurn
+  simp only [hopen, ne_eq, not_true_eq_false, if_false, hp, hb0, hn]
+  first | trivial | (refine ⟨trivial, trivial, trivial, trivial, ?_⟩; split <;> simp_all)
+
+theorem turns_complete : ∀ (bs : List Nat) (s : FcStream) (cw : Int),
+    s.st = .open → (s.pending : Int) ≤ s.swin → (s.pending : Int) ≤ cw →
+    (∀ b ∈ bs, 2048 ≤ b) → s.pending < 2048 * bs.length →
+    (turns s cw bs).1.st = .closed ∧ (turns s cw bs).1.pending = 0 ∧
+    (turns s cw bs).1.sent = s.sent + s.pending := by
+  intro bs
+  induction bs with
+  | nil => intro s cw _ _ _ _ hl; simp at hl
+  | cons b bs ih =>
+    intro s cw hopen hs hc hb hl
+    have hb0 : 2048 ≤ b := hb b (by simp)
+    have hbs : ∀ x ∈ bs, 2048 ≤ x := fun x hx => hb x (by simp [hx])
+    simp only [turns]
+    by_cases hp : s.pending = 0
+    · have h1 : streamTurn cw b s = ({ s with st := .closed }, 0) := by
+        simp [streamTurn, hopen, hp]
+      rw [h1, turns_not_open bs _ _ (by simp)]
+      simp [hp]
+    · obtain ⟨hn, hpe, hsw, hse, hst⟩ := streamTurn_enough s cw b hopen hp hb0 hs hc
+      have hcap := perCallCap_ge s
+      generalize hT : streamTurn cw b s = r at *
+      by_cases hall : s.pending - r.2 = 0
+      · have hclosed : r.1.st ≠ .open := by rw [hst]; simp [hall]
+        rw [turns_not_open bs _ _ hclosed]
+        refine ⟨by rw [hst]; simp [hall], by dsimp only; omega, by dsimp only; omega⟩
+      · have hopen' : r.1.st = .open := by rw [hst]; simp [hall]
+        have hlen : (List.length (b :: bs)) = bs.length + 1 := rfl
+        rw [hlen] at hl
+        obtain ⟨a1, a2, a3⟩ := ih r.1 (cw - r.2) hopen' (by rw [hpe, hsw]; omega) (by rw [hpe]; omega) hbs
+          (by rw [hpe]; omega)
+        refine ⟨a1, a2, ?_⟩
+        rw [a3, hse, hpe]; omega
+
 end LtVerif
